@@ -34,7 +34,9 @@ type solverSpec struct {
 var solvers = []solverSpec{
 	{"z3-new", func(f string, ms int) []string { return []string{"z3-new", "-smt2", fmt.Sprintf("-t:%d", ms), f} }},
 	{"z3", func(f string, ms int) []string { return []string{"z3", "-smt2", fmt.Sprintf("-t:%d", ms), f} }},
-	{"cvc5", func(f string, ms int) []string { return []string{"cvc5", "--lang=smt2", fmt.Sprintf("--tlimit-per=%d", ms), f} }},
+	{"cvc5", func(f string, ms int) []string {
+		return []string{"cvc5", "--lang=smt2", fmt.Sprintf("--tlimit-per=%d", ms), f}
+	}},
 }
 
 func itemText(it Item) string {
@@ -50,7 +52,11 @@ func itemText(it Item) string {
 }
 
 // incrementalScript renders the whole unit as one push/pop script.
-func incrementalScript(sc *Script) (string, []int) {
+func incrementalScript(sc *Script) (string, []int) { return incrementalScriptFor(sc, nil) }
+
+// incrementalScriptFor: only the obligations in want are queried (nil = all); the others are just
+// assumed at their position, as always.
+func incrementalScriptFor(sc *Script, want map[int]bool) (string, []int) {
 	var b strings.Builder
 	b.WriteString(sc.prefix())
 	var idx []int
@@ -59,7 +65,9 @@ func incrementalScript(sc *Script) (string, []int) {
 		case ItDecl, ItAssume:
 			b.WriteString(itemText(it) + "\n")
 		case ItOblig:
-			fmt.Fprintf(&b, "(push 1)\n(assert (and %s (not %s)))\n(echo \"@@%d\")\n(check-sat)\n(pop 1)\n", it.Guard, it.Text, i)
+			if want == nil || want[i] {
+				fmt.Fprintf(&b, "(push 1)\n(assert (and %s (not %s)))\n(echo \"@@%d\")\n(check-sat)\n(pop 1)\n", it.Guard, it.Text, i)
+			}
 			b.WriteString(itemText(it) + "\n")
 			idx = append(idx, i)
 		case ItCover:
@@ -94,8 +102,14 @@ func singleScript(sc *Script, k int, model bool) string {
 }
 
 func runSolver(ctx context.Context, sp solverSpec, file string, ms int) (string, float64) {
+	return runSolverBudget(ctx, sp, file, ms, ms+3000)
+}
+
+// runSolverBudget: ms is the limit per (check-sat), totalMs the limit for the whole process (an
+// incremental script holds many queries).
+func runSolverBudget(ctx context.Context, sp solverSpec, file string, ms, totalMs int) (string, float64) {
 	t0 := time.Now()
-	cctx, cancel := context.WithTimeout(ctx, time.Duration(ms+3000)*time.Millisecond)
+	cctx, cancel := context.WithTimeout(ctx, time.Duration(totalMs)*time.Millisecond)
 	defer cancel()
 	a := sp.args(file, ms)
 	cmd := exec.CommandContext(cctx, a[0], a[1:]...)
@@ -121,10 +135,10 @@ func firstVerdict(out string) string {
 }
 
 type solveOpts struct {
-	outDir    string
-	quickMs   int
+	outDir     string
+	quickMs    int
 	fallbackMs int
-	sem       chan struct{}
+	sem        chan struct{}
 }
 
 // solveUnit discharges all obligations of one script.
@@ -139,10 +153,65 @@ func solveUnit(sc *Script, opt solveOpts) []ObResult {
 		it := sc.Items[i]
 		results[i] = &ObResult{Unit: sc.Unit, Name: it.Name, Class: it.Class, Msg: it.Msg, Pos: it.Pos, Status: "undecided", File: incFile, IsCover: it.Kind == ItCover}
 	}
-	opt.sem <- struct{}{}
-	out, secs := runSolver(context.Background(), solvers[0], incFile, opt.quickMs)
-	<-opt.sem
-	// parse
+	// incremental passes, run side by side on the whole unit: z3 (answers most queries at once, or not
+	// within any reasonable time) and cvc5 (slower per query, much more robust on the quantified heap
+	// facts). What neither settles goes to the stand-alone race below.
+	secs := 0.0
+	type passOut struct {
+		out  string
+		secs float64
+		name string
+	}
+	pch := make(chan passOut, 2)
+	pctx, pcancel := context.WithCancel(context.Background())
+	for pass, sp := range []solverSpec{solvers[0], incrementalCvc5} {
+		go func(pass int, sp solverSpec) {
+			opt.sem <- struct{}{}
+			defer func() { <-opt.sem }()
+			perQ, budget := opt.quickMs/2, opt.quickMs*2
+			if pass == 0 {
+				perQ, budget = opt.quickMs, opt.quickMs+3000
+			}
+			out, s1 := runSolverBudget(pctx, sp, incFile, perQ, budget)
+			pch <- passOut{out, s1, sp.name + "(incremental)"}
+		}(pass, sp)
+	}
+	// take the results as they arrive; once everything is proved the slower pass is cancelled
+	for k := 0; k < 2; k++ {
+		po := <-pch
+		if po.secs > secs {
+			secs = po.secs
+		}
+		solveParse(po.out, results, po.name)
+		left := 0
+		for _, i := range idx {
+			if r := results[i]; !r.IsCover && r.Status != "proved" {
+				left++
+			}
+		}
+		// a handful of leftovers is cheaper to settle in the stand-alone race than by waiting for cvc5
+		if left == 0 || (left < 8 && strings.HasPrefix(po.name, "z3")) {
+			pcancel()
+		}
+	}
+	pcancel()
+	{
+		n := len(idx)
+		if n > 0 {
+			for _, i := range idx {
+				results[i].TimeS = secs / float64(n)
+			}
+		}
+	}
+	return solveFallback(sc, opt, dir, idx, results)
+}
+
+var incrementalCvc5 = solverSpec{"cvc5", func(f string, ms int) []string {
+	return []string{"cvc5", "--lang=smt2", "--incremental", fmt.Sprintf("--tlimit-per=%d", ms), f}
+}}
+
+// solveParse reads the verdicts of an incremental run ("@@i" echo before each check-sat).
+func solveParse(out string, results map[int]*ObResult, solverName string) {
 	lines := strings.Split(out, "\n")
 	cur := -1
 	for _, ln := range lines {
@@ -161,20 +230,29 @@ func solveUnit(sc *Script, opt solveOpts) []ObResult {
 		}
 		switch ln {
 		case "unsat":
+			if r.Status == "proved" {
+				cur = -1
+				continue
+			}
 			if r.IsCover {
 				r.Status = "vacuous"
 			} else {
 				r.Status = "proved"
 			}
-			r.Solver = "z3-new(incremental)"
+			r.Solver = solverName
 			cur = -1
 		case "sat":
+			if r.Status == "proved" || r.Status == "vacuous" {
+				// already settled by another pass
+				cur = -1
+				continue
+			}
 			if r.IsCover {
 				r.Status = "covered"
 			} else {
 				r.Status = "refuted?"
 			}
-			r.Solver = "z3-new(incremental)"
+			r.Solver = solverName
 			cur = -1
 		case "unknown":
 			cur = -1
@@ -184,13 +262,10 @@ func solveUnit(sc *Script, opt solveOpts) []ObResult {
 			}
 		}
 	}
-	n := len(idx)
-	if n > 0 {
-		for _, i := range idx {
-			results[i].TimeS = secs / float64(n)
-		}
-	}
-	// fallback: every obligation not proved is re-run alone on all solvers
+}
+
+// solveFallback: every obligation not proved by the incremental passes is re-run alone on all solvers.
+func solveFallback(sc *Script, opt solveOpts, dir string, idx []int, results map[int]*ObResult) []ObResult {
 	var wg sync.WaitGroup
 	for _, i := range idx {
 		r := results[i]
